@@ -34,15 +34,16 @@ def engine_m(prop, tier):
         from mirsym import setter
         obs, models = setter.check(prog, tier)
     elif prop == "C14":
-        from mirsym import sincs
-        obs, models = sincs.check(prog, tier)
+        from mirsym import delay
+        obs, models, dmeta = delay.check(tier, repo=os.environ.get("RV_REPO", "/repo"))
+        extra.update(dmeta)
     meta = dict(mir_dump=os.path.basename(path), mir_source_key=key, bodies_in_dump=len(prog.bodies),
                 models_used=sorted(set(models)), wall_s=round(time.time() - t0, 2))
     meta.update(extra)
     return obs, meta
 
 
-M_PROPS = {"C08", "C15", "C03", "C12"}   # extended as the other mirsym checks land
+M_PROPS = {"C08", "C15", "C03", "C12", "C14"}   # extended as the other mirsym checks land
 M_ONLY = {"C15"}
 
 
@@ -151,6 +152,15 @@ def m_replay(prop, o):
                            capture_output=True, text=True, timeout=120)
         bad = "MISMATCH" in r.stdout or r.returncode < 0
         return dict(confirmed=bad, how=(r.stdout.strip()[-300:] or "signal %d" % -r.returncode))
+    if prop == "C14" and "delay_report" in o["id"]:
+        td = os.path.join(K.SCRATCH, "native")
+        b = subprocess.run(["cargo", "build", "--offline", "--release", "--example", "mdelay", "--target-dir", td],
+                           cwd=K.KANI_CRATE, env=K.env_offline(), capture_output=True, text=True)
+        if b.returncode != 0:
+            return dict(confirmed=False, how="mdelay build failed: " + b.stderr[-300:])
+        r = subprocess.run([os.path.join(td, "release", "examples", "mdelay"), o["id"].split(".")[-1]], capture_output=True, text=True, timeout=300)
+        lines = [l for l in r.stdout.strip().splitlines() if l]
+        return dict(confirmed="MISMATCH" in r.stdout, how=" | ".join(lines[-5:])[-600:])
     if prop == "C12" and "model" in o and "relative_predicate" in o["id"]:
         m = o["model"]
         td = os.path.join(K.SCRATCH, "native")
